@@ -90,6 +90,16 @@ def registry_members(rng, count):
     return [(reg, key, seq, kit_of[c]) for reg, key, seq, c in pick if c in kit_of]
 
 
+def with_extra_site(s, site, rng):
+    """a structure instance with one more recognition site of the class's own enzyme (either strand, anywhere):
+    the 'illegal site' branch of the validation"""
+    extra = rng.choice([site, dna.rc(site)])
+    if rng.random() < 0.3:
+        extra = "".join(c.lower() if rng.random() < 0.5 else c for c in extra)
+    pos = rng.randrange(len(s) + 1)
+    return s[:pos] + extra + s[pos:]
+
+
 def typing_sig(clause, ev, trace):
     c = ev["cls"]
     kind = "generic" if c["generic"] else ("part" if c["sig"] else c["name"])
